@@ -366,7 +366,13 @@ class Ctx:
         self.seed = seed
         self.rng = random.Random(seed)
         self.t0 = time.time()
-        self.work = os.path.join(WORKROOT, pid)
+        # one scratch directory per RUN (property id + process id): two runs of the same check at the
+        # same time (a builder's own run next to the coordinator's) must not delete each other's files
+        self.work = os.path.join(WORKROOT, "%s.%d" % (pid, os.getpid()))
+        for d in glob.glob(os.path.join(WORKROOT, pid + ".*")) + [os.path.join(WORKROOT, pid)]:
+            owner = d.rsplit(".", 1)[-1]
+            if not (owner.isdigit() and os.path.exists("/proc/" + owner)):
+                shutil.rmtree(d, ignore_errors=True)  # left behind by a run that is gone
         shutil.rmtree(self.work, ignore_errors=True)
         os.makedirs(self.work, exist_ok=True)
         _sync_build_dir()
